@@ -454,5 +454,8 @@ pub fn run(tier: Tier, seed: u64) -> i32 {
         rep.add(d);
     }
     let _ = json!(null);
+    if !rep.failed() && tier == Tier::Thorough {
+        rep.add(run::fuzz_block("mount", 3_000_000, seed, 256));
+    }
     rep.finish()
 }
